@@ -144,6 +144,7 @@ CHECK_DEADLOCK FALSE
 		c.Fail(Finding{Sig: "walk-trace-rejected", Input: it.Key, What: rejectText(res) + " " + offendingEvent(it, res) + " in " + it.Key, Replay: it.Replay})
 	})
 	c.Set("trace_events", events)
+	c13Clones(c)
 	c.Set("rule", "case = one traversal (Walk or Inspect) of one file under one pruning rule; non-trivial = the rule prunes at least one node that has children, or it is the full traversal compared with go/ast; distinct by file+rule")
 }
 
@@ -251,5 +252,55 @@ func init() {
 			msg = c.findings[0].What
 		}
 		return msg
+	}
+}
+
+// c13Clones: a tree that holds clones next to their sources (every declaration followed by a clone of
+// itself, cloned twice over) is still a tree: Walk visits every node exactly once, and twice as many
+// nodes as in the source.
+func c13Clones(c *Ctx) {
+	srcs := [][]byte{}
+	if t, err := templateSrc(); err == nil {
+		srcs = append(srcs, t)
+	}
+	for _, f := range corpus(c, 12) {
+		srcs = append(srcs, f.Src)
+	}
+	for i, src := range srcs {
+		f, err := decorator.Parse(src)
+		if err != nil {
+			continue
+		}
+		key := fmt.Sprintf("clones-in-tree|%d", i)
+		c.Eval(key, true)
+		count := func(n dst.Node) (int, map[dst.Node]int) {
+			seen := map[dst.Node]int{}
+			total := 0
+			dst.Inspect(n, func(x dst.Node) bool {
+				if x != nil {
+					seen[x]++
+					total++
+				}
+				return true
+			})
+			return total, seen
+		}
+		before, _ := count(f)
+		var decls []dst.Decl
+		for _, d := range f.Decls {
+			decls = append(decls, d, dst.Clone(dst.Clone(d)).(dst.Decl))
+		}
+		f.Decls = decls
+		after, seen := count(f)
+		for n, k := range seen {
+			if k > 1 {
+				c.Fail(Finding{Sig: "node-visited-twice", Input: key, What: fmt.Sprintf("a %T is visited %d times in a tree made of declarations and their clones (a clone shares it with its source)", n, k), Replay: obj{"kind": "none"}})
+				break
+			}
+		}
+		// the file node and its name are not doubled
+		if want := 2*before - 2; after != want {
+			c.Fail(Finding{Sig: "clone-walk-count", Input: key, What: fmt.Sprintf("the source has %d nodes, with a clone next to every declaration Walk visits %d, expected %d", before, after, want), Replay: obj{"kind": "none"}})
+		}
 	}
 }
